@@ -37,11 +37,53 @@ theorem OptRel.isNone {β γ : Type} {A : β → γ → Prop} {a' : Option β} {
 def DiagSim (d' d : Diag) : Prop :=
   d'.sev = d.sev ∧ d'.stage = d.stage ∧ d'.kind = d.kind ∧ d'.labels.length = d.labels.length
 
+/-- located values with related contents (the span is not compared) -/
+def LocSim {β : Type} (A : β → β → Prop) (l' l : Loc β) : Prop := A l'.val l.val
+
+/-- quantity values: the same value (numbers are computed from the digits, text values are the
+    trimmed text), a scaling lock on both sides or on neither -/
+def PQValueSim (v' v : PQValue α) : Prop := v'.value.val = v.value.val ∧ v'.lock.isSome = v.lock.isSome
+
+/-- quantities: related values, units with the same content -/
+def PQuantitySim (uws : Char → Bool) (q' q : PQuantity α) : Prop :=
+  PQValueSim q'.value q.value ∧ OptRel (TextSim uws) q'.unit q.unit
+
+/-- ingredients with the same content: equal modifiers and intermediate-reference data, name,
+    alias and note with the same content, related quantities -/
+structure PIngredientSim (uws : Char → Bool) (i' i : PIngredient α) : Prop where
+  modifiers : i'.modifiers.val = i.modifiers.val
+  inter : OptRel (LocSim Eq) i'.inter i.inter
+  name : TextSim uws i'.name i.name
+  alias : OptRel (TextSim uws) i'.alias i.alias
+  quantity : OptRel (LocSim (PQuantitySim uws)) i'.quantity i.quantity
+  note : OptRel (TextSim uws) i'.note i.note
+
+structure PCookwareSim (uws : Char → Bool) (c' c : PCookware α) : Prop where
+  modifiers : c'.modifiers.val = c.modifiers.val
+  name : TextSim uws c'.name c.name
+  alias : OptRel (TextSim uws) c'.alias c.alias
+  quantity : OptRel (LocSim PQValueSim) c'.quantity c.quantity
+  note : OptRel (TextSim uws) c'.note c.note
+
+structure PTimerSim (uws : Char → Bool) (t' t : PTimer α) : Prop where
+  name : OptRel (TextSim uws) t'.name t.name
+  quantity : OptRel (LocSim (PQuantitySim uws)) t'.quantity t.quantity
+
+/-- the YAML text of a front-matter event and its CRLF conversion (the YAML parser is outside the
+    model: the texts are related as source text, one fragment each, at any offsets) -/
+def FmTextCrlf (t' t : Text) : Prop := ∃ y o' o, t' = Text.fromStr (crlf y) o' ∧ t = Text.fromStr y o
+
 /-- events with the same rendered content: same constructor, texts with the same content
-    (`TextSim`), diagnostics of the same kind.  Component events are never related: the relational
-    lemmas below cover blocks without component markers, which emit none. -/
+    (`TextSim`), diagnostics of the same kind, components with the same content
+    (`PIngredientSim`, `PCookwareSim`, `PTimerSim`: equal modifiers, values and reference data,
+    texts with the same content).  Source spans are never compared.  A front-matter event (never
+    produced by the block parsers) is related to one with the same content or with the
+    CRLF-converted YAML text (`FmTextCrlf`). -/
 def EvSim (uws : Char → Bool) : Ev α → Ev α → Prop
-  | .frontMatter t', .frontMatter t => TextSim uws t' t
+  | .frontMatter t', .frontMatter t => TextSim uws t' t ∨ FmTextCrlf t' t
+  | .ingredient i', .ingredient i => PIngredientSim uws i'.val i.val
+  | .cookware c', .cookware c => PCookwareSim uws c'.val c.val
+  | .timer t', .timer t => PTimerSim uws t'.val t.val
   | .metadata k' v', .metadata k v => TextSim uws k' k ∧ TextSim uws v' v
   | .«section» n', .«section» n => OptRel (TextSim uws) n' n
   | .start k', .start k => k' = k
@@ -61,6 +103,12 @@ theorem EvSim.mk_start {uws : Char → Bool} (k : BlockKind) : EvSim (α := α) 
   unfold EvSim; rfl
 theorem EvSim.mk_stop {uws : Char → Bool} (k : BlockKind) : EvSim (α := α) uws (.stop k) (.stop k) := by
   unfold EvSim; rfl
+theorem EvSim.mk_ingredient {uws : Char → Bool} {i' i : Loc (PIngredient α)} (h : PIngredientSim uws i'.val i.val) :
+    EvSim (α := α) uws (.ingredient i') (.ingredient i) := by unfold EvSim; exact h
+theorem EvSim.mk_cookware {uws : Char → Bool} {c' c : Loc (PCookware α)} (h : PCookwareSim uws c'.val c.val) :
+    EvSim (α := α) uws (.cookware c') (.cookware c) := by unfold EvSim; exact h
+theorem EvSim.mk_timer {uws : Char → Bool} {t' t : Loc (PTimer α)} (h : PTimerSim uws t'.val t.val) :
+    EvSim (α := α) uws (.timer t') (.timer t) := by unfold EvSim; exact h
 theorem EvSim.mk_error {uws : Char → Bool} {d' d : Diag} (h : DiagSim d' d) :
     EvSim (α := α) uws (.error d') (.error d) := by unfold EvSim; exact h
 theorem EvSim.mk_warning {uws : Char → Bool} {d' d : Diag} (h : DiagSim d' d) :
